@@ -25,7 +25,11 @@ RULE = ('split_path: every path of 0..5 (quick) / 0..7 (thorough) segments over 
         '1000..70000 characters, bare and quoted, at every list position). Call sequences (kind seq): call, change the returned '
         'list in place (each of 18 list operations), call again with the same / an equal distinct argument object, for '
         'fixed and random argument tuples (paths shared across different minsegs/maxsegs/flag); every call must give the '
-        'model answer and a list object no earlier call returned; failures are confirmed in a fresh interpreter.')
+        'model answer and a list object no earlier call returned; failures are confirmed in a fresh interpreter. Calling '
+        'convention: the pinned signatures split_path(path, minsegs=1, maxsegs=None, rest_with_last=False) and '
+        'split_by_commas(value) are data in the harness; every case is called in one of the legal forms of its logical '
+        'arguments (positional prefix 0..4, the rest by keyword in every order, defaults also omitted), cycling over the '
+        'whole grid, plus all forms for every argument tuple of a small grid; the model always gets the logical arguments.')
 TRUSTED_BASE = [
     'Lean 4 kernel; axioms audited per theorem (subset of propext, Classical.choice, Quot.sound)',
     'hand-written model OsloModel/Split.lean (split_path transcription; Python str.split / join / expandtabs; hand parser '
@@ -48,14 +52,111 @@ ASSUMPTIONS = [
 # implementation runners / canonical forms
 
 
+# The pinned public signatures (clean tree, written down here as data - not read from the tree under test).
+REQ = '<required>'
+SIGNATURES = {
+    'split_path': [['path', REQ], ['minsegs', 1], ['maxsegs', None], ['rest_with_last', False]],
+    'split_by_commas': [['value', REQ]],
+}
+_FORMS_CACHE = {}
+
+
+def same_value(a, b):
+    return a is b or (type(a) is type(b) and a == b)
+
+
+def legal_forms(fname, logical):
+    """Every legal way of passing the logical arguments: the first `pos` positionally, the others by keyword in every
+    order, a parameter whose logical value is its default also omitted.  form = {'pos': n, 'kw': [names in order]}."""
+    sig = SIGNATURES[fname]
+    mask = tuple(p[1] is not REQ and same_value(v, p[1]) for p, v in zip(sig, logical))
+    key = (fname, mask)
+    if key not in _FORMS_CACHE:
+        forms, n = [], len(sig)
+        for npos in range(n, -1, -1):
+            rest = list(range(npos, n))
+            optional = [i for i in rest if mask[i]]
+            for k in range(len(optional) + 1):
+                for omitted in itertools.combinations(optional, k):
+                    kws = [i for i in rest if i not in omitted]
+                    for perm in itertools.permutations(kws):
+                        forms.append({'pos': npos, 'kw': [sig[i][0] for i in perm]})
+        _FORMS_CACHE[key] = forms
+    return _FORMS_CACHE[key]
+
+
+def balanced_forms(fname, logical):
+    """the legal forms arranged so that cycling through them uses every length of positional prefix equally often"""
+    key = ('balanced', fname) + tuple(p[1] is not REQ and same_value(v, p[1]) for p, v in zip(SIGNATURES[fname], logical))
+    if key not in _FORMS_CACHE:
+        groups = {}
+        for f in legal_forms(fname, logical):
+            groups.setdefault(f['pos'], []).append(f)
+        longest = max(len(g) for g in groups.values())
+        _FORMS_CACHE[key] = [groups[k][j % len(groups[k])] for j in range(longest) for k in sorted(groups)]
+    return _FORMS_CACHE[key]
+
+
+def call_form(fn, fname, logical, form):
+    if not form:
+        return fn(*logical)
+    names = [p[0] for p in SIGNATURES[fname]]
+    kwargs = {}
+    for k in form['kw']:
+        kwargs[k] = logical[names.index(k)]
+    return fn(*logical[:form['pos']], **kwargs)
+
+
+def call_text(fname, logical, form):
+    names = [p[0] for p in SIGNATURES[fname]]
+    if not form:
+        form = {'pos': len(logical), 'kw': []}
+    parts = [short(v, 60) if isinstance(v, str) else repr(v) for v in logical[:form['pos']]]
+    parts += ['%s=%s' % (k, short(logical[names.index(k)], 60) if isinstance(logical[names.index(k)], str)
+                         else repr(logical[names.index(k)])) for k in form['kw']]
+    return '%s(%s)' % (fname, ', '.join(parts))
+
+
+def logical_args(case):
+    if case['kind'] == 'path':
+        return 'split_path', [case['path'], case['minsegs'], case['maxsegs'], case['rest_with_last']]
+    return 'split_by_commas', [case['value']]
+
+
+def with_forms(stream, start=0):
+    """Give every path / commas case of a stream a call form, cycling through the legal forms of its arguments."""
+    i = start
+    for case, tag in stream:
+        if case.get('kind') in ('path', 'commas') and 'form' not in case:
+            fname, logical = logical_args(case)
+            forms = balanced_forms(fname, logical)
+            case['form'] = forms[i % len(forms)]
+            i += 1
+        yield case, tag
+
+
+def gen_all_forms_cases(quick):
+    """every legal call form for every argument tuple of a small grid (both functions)"""
+    for path, _ in gen_paths_exhaustive(1 if quick else 2):
+        for mn in (1, 2, 3, 4):
+            for mx in maxsegs_choices(mn):
+                for rwl in (False, True):
+                    for form in legal_forms('split_path', [path, mn, mx, rwl]):
+                        yield ({'kind': 'path', 'path': path, 'minsegs': mn, 'maxsegs': mx, 'rest_with_last': rwl,
+                                'form': form}, 'call-forms')
+    for v in ['a,b', '"a,b",c', 'x', '"', 'a,,b', '', ' a , "b c" ', '"\\"q\\""', 'a b']:
+        for form in legal_forms('split_by_commas', [v]):
+            yield {'kind': 'commas', 'value': v, 'form': form}, 'call-forms'
+
+
 def enc_segs(segs):
     return 'ok:' + ','.join('N' if s is None else hexs(s) for s in segs)
 
 
-def impl_path(path, mn, mx, rwl):
+def impl_path(path, mn, mx, rwl, form=None):
     from oslo_utils import strutils
     try:
-        r = strutils.split_path(path, mn, mx, rwl)
+        r = call_form(strutils.split_path, 'split_path', [path, mn, mx, rwl], form)
     except ValueError:
         return 'ValueError'
     except Exception as e:       # reported verbatim
@@ -63,10 +164,10 @@ def impl_path(path, mn, mx, rwl):
     return enc_segs(r)
 
 
-def impl_commas(value):
+def impl_commas(value, form=None):
     from oslo_utils import strutils
     try:
-        r = strutils.split_by_commas(value)
+        r = call_form(strutils.split_by_commas, 'split_by_commas', [value], form)
     except ValueError:
         return 'ValueError'
     except Exception as e:
@@ -93,9 +194,9 @@ def line_of(case):
 def impl_of(case):
     k = case['kind']
     if k == 'path':
-        return impl_path(case['path'], case['minsegs'], case['maxsegs'], case['rest_with_last'])
+        return impl_path(case['path'], case['minsegs'], case['maxsegs'], case['rest_with_last'], case.get('form'))
     if k == 'commas':
-        return impl_commas(case['value'])
+        return impl_commas(case['value'], case.get('form'))
     if k == 'split':
         return ','.join(hexs(x) for x in case['s'].split('/', case['n']))
     if k == 'tabs':
@@ -409,7 +510,7 @@ def nontrivial(case, impl):
 
 
 def canon(case):
-    return tuple(sorted((k, repr(v)) for k, v in case.items() if k in ('kind', 'path', 'minsegs', 'maxsegs', 'rest_with_last', 'value', 's', 'n')))
+    return tuple(sorted((k, repr(v)) for k, v in case.items() if k in ('kind', 'path', 'minsegs', 'maxsegs', 'rest_with_last', 'value', 's', 'n', 'form')))
 
 
 def run_batch(ctx, batch, out):
@@ -418,6 +519,8 @@ def run_batch(ctx, batch, out):
         ctx.evaluations += 1
         impl = impl_of(case)
         ctx.count('corr/%s/%s' % (case['kind'], tag))
+        if case.get('form'):
+            ctx.count('call-form/%s/pos=%d,kw=%d' % (case['kind'], case['form']['pos'], len(case['form']['kw'])))
         if case['kind'] in ('path', 'commas'):
             ctx.count('out/%s/%s' % (case['kind'], impl.split(':')[0] if not impl.startswith('ok:') else
                                      ('ok' if case['kind'] == 'path' else 'ok/%d' % min(6, impl.count(',') + 1))))
@@ -438,11 +541,12 @@ def correspondence(ctx):
     out = []
     rng = ctx.rng
     streams = [
-        gen_path_cases_exhaustive(5 if ctx.quick else 7),
-        gen_path_edge_cases(ctx.quick),
-        gen_path_long_cases(rng),
-        (((gen_path_random(rng)), 'random') for _ in range(20000 if ctx.quick else 300000)),
-        gen_commas_cases(ctx),
+        with_forms(gen_path_cases_exhaustive(5 if ctx.quick else 7)),
+        with_forms(gen_path_edge_cases(ctx.quick), 1),
+        with_forms(gen_path_long_cases(rng), 2),
+        with_forms((((gen_path_random(rng)), 'random') for _ in range(20000 if ctx.quick else 300000)), 3),
+        gen_all_forms_cases(ctx.quick),
+        with_forms(gen_commas_cases(ctx)),
         gen_prim_cases(ctx),
     ]
     batch = []
@@ -499,11 +603,12 @@ def spec_split_path(path, minsegs, maxsegs, rwl):
 def oracle_path(case):
     if case['minsegs'] < 1:
         return None          # outside the property's quantifier
-    got = impl_path(case['path'], case['minsegs'], case['maxsegs'], case['rest_with_last'])
+    got = impl_path(case['path'], case['minsegs'], case['maxsegs'], case['rest_with_last'], case.get('form'))
     want = spec_split_path(case['path'], case['minsegs'], case['maxsegs'], case['rest_with_last'])
     if got != want:
-        return 'split_path(%s, %r, %r, %r) returned %s, contract says %s' % (
-            short(case['path']), case['minsegs'], case['maxsegs'], case['rest_with_last'], show(got), show(want))
+        return '%s returned %s, contract says %s' % (
+            call_text('split_path', [case['path'], case['minsegs'], case['maxsegs'], case['rest_with_last']],
+                      case.get('form')), show(got), show(want))
     return None
 
 
@@ -534,20 +639,20 @@ def oracle_commas(case):
     """Round trip for encoded item lists; ValueError for the malformed classes; for any other string the
     accept/reject verdict of the written grammar and re-encoding stability."""
     v = case['value']
-    got = impl_commas(v)
+    got = impl_commas(v, case.get('form'))
     if 'items' in case and not any(c in it for it in case['items'] for c in '\t\n\r'):
         want = 'ok:' + ','.join(hexs(x) for x in case['items'])
         if got != want:
-            return 'split_by_commas(%s) returned %s, the joined items were %s' % (short(v), show(got), short(case['items']))
+            return '%s returned %s, the joined items were %s' % (call_text('split_by_commas', [v], case.get('form')), show(got), short(case['items']))
         return None
     if case.get('expect') == 'ValueError':
         if got != 'ValueError':
-            return 'split_by_commas(%s) returned %s but the string has %s' % (short(v), show(got), case.get('why'))
+            return '%s returned %s but the string has %s' % (call_text('split_by_commas', [v], case.get('form')), show(got), case.get('why'))
         return None
     accept = bool(GRAMMAR_RE.match(v))
     if accept != got.startswith('ok:'):
-        return 'split_by_commas(%s) gave %s; the grammar (quoted | word) list says %s' % (
-            short(v), show(got), 'accept' if accept else 'ValueError')
+        return '%s gave %s; the grammar (quoted | word) list says %s' % (
+            call_text('split_by_commas', [v], case.get('form')), show(got), 'accept' if accept else 'ValueError')
     if got.startswith('ok:'):
         items = [common.unhexs(x) for x in got[3:].split(',')]
         if not any(c in it for it in items for c in '\t\n\r'):
@@ -639,6 +744,7 @@ def exec_seq(case):
     [encoded result, index of an earlier call that returned the very same object or None]."""
     from oslo_utils import strutils
     fn = strutils.split_by_commas if case['fn'] == 'commas' else strutils.split_path
+    fname = 'split_by_commas' if case['fn'] == 'commas' else 'split_path'
     latest, objs, trace = {}, [], []
     for st in case['steps']:
         if st[0] == 'call':
@@ -646,7 +752,7 @@ def exec_seq(case):
             if st[2]:
                 args[0] = distinct_copy(args[0])
             try:
-                r = fn(*args)
+                r = call_form(fn, fname, args, st[3] if len(st) > 3 else None)
             except ValueError:
                 r, enc = None, 'ValueError'
             except Exception as e:
@@ -724,8 +830,8 @@ def seq_text(case, upto=None):
     out, k = [], 0
     for st in case['steps']:
         if st[0] == 'call':
-            out.append('#%d %s(%s)%s' % (k, name, ', '.join(short(x, 60) for x in case['values'][st[1]]),
-                                         ' [equal, distinct object]' if st[2] else ''))
+            out.append('#%d %s%s' % (k, call_text(name, list(case['values'][st[1]]), st[3] if len(st) > 3 else None),
+                                     ' [equal, distinct object]' if st[2] else ''))
             if upto is not None and k == upto:
                 break
             k += 1
@@ -801,12 +907,15 @@ def seq_values_path(rng, n):
     return vals, exp
 
 
-def gen_seq_steps(rng, nvals, ncalls):
-    steps = [['call', 0, False]]
+def gen_seq_steps(rng, nvals, ncalls, fname=None, vals=None):
+    def form(vi):
+        return rng.choice(legal_forms(fname, vals[vi])) if fname else None
+    steps = [['call', 0, False, form(0)]]
     for _ in range(ncalls - 1):
         for _ in range(rng.choice([0, 1, 1, 2])):
             steps.append(['mut', rng.randrange(nvals), rng.choice(MUT_OPS)])
-        steps.append(['call', rng.randrange(nvals), rng.random() < 0.4])
+        vi = rng.randrange(nvals)
+        steps.append(['call', vi, rng.random() < 0.4, form(vi)])
     return steps
 
 
@@ -822,10 +931,12 @@ def gen_seq_cases(ctx, nrandom):
     exp_p = [spec_split_path(*a) for a in fixed_p]
     for fn, vals, exp in (('commas', fixed_c, exp_c), ('path', fixed_p, exp_p)):
         for vi in range(len(vals)):
-            for op in MUT_OPS:
+            forms = legal_forms('split_by_commas' if fn == 'commas' else 'split_path', vals[vi])
+            for oi, op in enumerate(MUT_OPS):
                 for distinct in (False, True):
                     yield {'kind': 'seq', 'fn': fn, 'values': [vals[vi]], 'expected': [exp[vi]],
-                           'steps': [['call', 0, False], ['mut', 0, op], ['call', 0, distinct]]}, 'seq/%s/each-op' % fn
+                           'steps': [['call', 0, False, forms[(2 * oi) % len(forms)]], ['mut', 0, op],
+                                     ['call', 0, distinct, forms[(2 * oi + 1 + distinct) % len(forms)]]]}, 'seq/%s/each-op' % fn
         # same path, different other arguments, interleaved
         yield {'kind': 'seq', 'fn': fn, 'values': vals, 'expected': exp,
                'steps': [['call', i, False] for i in range(len(vals))] + [['mut', i, 'clear'] for i in range(len(vals))] +
@@ -835,7 +946,8 @@ def gen_seq_cases(ctx, nrandom):
         n = rng.randrange(1, 4)
         vals, exp = (seq_values_commas if fn == 'commas' else seq_values_path)(rng, n)
         yield {'kind': 'seq', 'fn': fn, 'values': vals, 'expected': exp,
-               'steps': gen_seq_steps(rng, len(vals), rng.randrange(2, 6))}, 'seq/%s/random' % fn
+               'steps': gen_seq_steps(rng, len(vals), rng.randrange(2, 6),
+                                      'split_by_commas' if fn == 'commas' else 'split_path', vals)}, 'seq/%s/random' % fn
 
 
 def run_seq_correspondence(ctx, out, nrandom):
@@ -890,7 +1002,7 @@ def shrink_seq(case, deadline):
     if len(used) < len(case['values']):
         remap = {v: i for i, v in enumerate(used)}
         cand = dict(case, values=[case['values'][v] for v in used], expected=[case['expected'][v] for v in used],
-                    steps=[[st[0], remap[st[1]], st[2]] for st in steps])
+                    steps=[[st[0], remap[st[1]]] + list(st[2:]) for st in steps])
         if fails(cand):
             case = cand
     return case
@@ -940,8 +1052,15 @@ def search(ctx, seeds, full=False):
     shrink_budget = [60.0]       # seconds of wall clock spent on shrinking, over the whole search
     history = [0]                # single-call failures that did not reproduce in a fresh interpreter
 
+    form_counter = [0]
+
     def consider(case):
         ctx.evaluations += 1
+        if case.get('kind') in ('path', 'commas') and 'form' not in case:
+            fname, logical = logical_args(case)
+            forms = balanced_forms(fname, logical)
+            case['form'] = forms[form_counter[0] % len(forms)]
+            form_counter[0] += 1
         why = oracle(case)
         if not why:
             return
@@ -1009,7 +1128,8 @@ def search(ctx, seeds, full=False):
         if len(fails) >= 5:
             return fails
     # blanks / control characters at every structural position, and long inputs: always in full
-    families = [c for c, _ in gen_path_edge_cases(ctx.quick)]
+    families = [c for c, _ in gen_all_forms_cases(ctx.quick)]
+    families += [c for c, _ in gen_path_edge_cases(ctx.quick)]
     families += [c for c, _ in gen_path_long_cases(rng)]
     for items, _ in gen_long_items(rng, ctx.quick):
         families.append({'kind': 'commas', 'items': items, 'value': ','.join(py_quote_if_needed(x) for x in items),
